@@ -489,6 +489,28 @@ fn systematic() -> Vec<Prog> {
         let name = intern(format!("sys3/{}-vs-marker-vs-harvester", xn));
         v.push(Prog { name, pages: 70, threads: vec![x.clone(), vec![MarkRange(5, 2)], vec![Harvest]], init: vec![] });
     }
+    // LONG ranges (three words and more): range code may switch strategy with the length; a foreign
+    // update lands in the partial first / last word or in a whole interior word
+    for (xn, x, init) in [
+        ("mark", MarkRange(60, 72), vec![]),
+        ("mark-over-dirty-neighbours", MarkRange(60, 72), vec![SetBit(3), SetBit(131)]),
+        ("reset", ResetRange(60, 72), vec![MarkRange(58, 76)]),
+        ("mark_dirty", MarkDirty(60, 72), vec![]),
+    ] {
+        for (fnm, f) in [
+            ("setbit-head-word", vec![SetBit(5)]),
+            ("setbit-tail-word", vec![SetBit(133)]),
+            ("resetbit-head-then-setbit-tail", vec![ResetBit(58), SetBit(133)]),
+            ("setbit-inside-the-range", vec![SetBit(100)]),
+        ] {
+            // the two-step foreign thread (~70 000 interleavings) only against plain mark and reset
+            if f.len() > 1 && xn != "mark" && xn != "reset" {
+                continue;
+            }
+            let name = intern(format!("longrange/{}-vs-{}", xn, fnm));
+            v.push(Prog { name, pages: 140, threads: vec![vec![x.clone()], f], init: init.clone() });
+        }
+    }
     // value-dependent states of a word: every page of the first word dirty (and, as a contrast,
     // all but one) before the threads start; two clearing operations and a re-mark race on it
     for (iname, init) in [("full-word", vec![MarkRange(0, 64)]), ("full-but-one", vec![MarkRange(0, 63)]), ("full-two-words", vec![MarkRange(0, 70)])] {
@@ -514,7 +536,7 @@ fn systematic() -> Vec<Prog> {
 
 fn larger(r: &mut Rng) -> Prog {
     // 3 threads x up to 8 primitive steps on pages sharing one word / two words
-    let pages = 130;
+    let pages = 200;
     let mut threads = vec![];
     for t in 0..3 {
         let mut ops = vec![];
@@ -523,11 +545,13 @@ fn larger(r: &mut Rng) -> Prog {
             let p = *r.pick(&[1usize, 2, 3, 62, 63, 64, 65]);
             ops.push(match r.below(10) {
                 0..=3 => Op::SetBit(p),
-                4 | 5 => Op::MarkRange(p, 1 + r.usize_below(3)),
+                4 => Op::MarkRange(p, 1 + r.usize_below(3)),
+                // now and then a long range (one to two whole words and more)
+                5 => Op::MarkRange(p, if r.chance(1, 3) { 60 + r.usize_below(70) } else { 1 + r.usize_below(3) }),
                 6 => Op::ResetBit(p),
                 7 => Op::Harvest,
                 8 => Op::Clone,
-                _ => Op::ResetRange(p, 1 + r.usize_below(2)),
+                _ => Op::ResetRange(p, if r.chance(1, 4) { 60 + r.usize_below(70) } else { 1 + r.usize_below(2) }),
             });
         }
         if t == 2 {
@@ -636,7 +660,7 @@ pub fn run(args: &Args) {
     match mode.as_str() {
         "dfs" => {
             set_sched_hook(Some(hook));
-            let maxs = args.u64("max", 60_000);
+            let maxs = args.u64("max", 80_000);
             let (si, sn) = args.shard();
             let nprog = args.u64("programs", cat.len() as u64) as usize;
             let mut total = 0;
